@@ -2,7 +2,7 @@
 (C01-C08, C12-C16).  One PRNG state per run; every case is a (string set,
 kind, parameters, phase, operations) tuple that is run through the C++ driver
 (implementation) and through the extracted oracle (Spec.v / concrete models)."""
-import random
+import random, re
 from vlib import Case
 
 ORDER_KINDS = ["PFC", "RPFC", "HTFC", "HHTFC", "RPHTFC", "RPDAC", "FMINDEX"]
@@ -239,7 +239,7 @@ def build_cmds(S, kind, params, name="d"):
 # --------------------------------------------------------------------------
 def parse_q(line):
     """'q d op arg = rest' -> (dict, op, arg, rest) or None"""
-    if not line.startswith("q "):
+    if not (line.startswith("q ") or line.startswith("uq ")):
         return None
     head, _, rest = line.partition(" =")
     t = head.split()
@@ -318,9 +318,14 @@ def evaluate(case, io, mo, S=None, memreports=None):
         cmd = case.cmds[k] if k < len(case.cmds) else "(at exit / destructor)"
         t = cmd.split()
         dname = t[1] if len(t) > 1 else ""
-        op = t[2] if t and t[0] == "q" and len(t) > 2 else (t[0] if t else "exit")
+        op = t[2] if t and t[0] in ("q", "uq", "mq") and len(t) > 2 else (t[0] if t else "exit")
+        sites = []
+        for e in io["err"]:
+            m = re.search(r"SUMMARY: AddressSanitizer: (\S+) \S+ in ([^(]+)", e)
+            if m:
+                sites.append("site:%s %s" % (m.group(1), m.group(2).strip().replace(" ", "_")))
         fails.append(Fail(op, "implementation %s: %s" % (io["status"], " | ".join(io["err"][-1:] + io["err"][:2])), cmd,
-                          classes_for(meta, dname, op, "") + ["crash"], dname))
+                          classes_for(meta, dname, op, "") + ["crash"] + sites + (["timeout"] if io["status"] == "timeout" else []), dname))
     permuted = kind in HASH_KINDS or kind == "XBW"
     tables = {}  # dict name -> {id: bytes}
     if permuted:
@@ -367,6 +372,11 @@ def evaluate(case, io, mo, S=None, memreports=None):
             continue
         if b.startswith("SKIP") or b.startswith("MODEL"):
             continue
+        if a.startswith("ilv ") and b.startswith("ilv "):
+            # a NULL string iterator and an empty one both mean "no string is produced"
+            a, b = a.replace("[NULL]", "[strs]"), b.replace("[NULL]", "[strs]")
+            if a.replace(" PATTERN-MODIFIED", "") == b:
+                continue
         if a == b:
             continue
         # a NULL string iterator and an empty one both mean "no string is produced"
